@@ -94,7 +94,31 @@ def check_roundtrip(case):
         s3 = _parse(s2, _kindsig(spec)).to_string()
         if s3 != s2:
             raise Failure("reserialize-not-idempotent", f"{s2!r} -> {s3!r}")
-    return _info(spec, (["padded"] if pads else []) + (["python-numbers"] if case.get("numeric") else []))
+    labels_extra = []
+    if normal and not case.get("numeric"):
+        # the message object is edited after it has been serialized once (a free-text child gets another value, a free-text
+        # attribute of the message too): what it serializes to afterwards is the edited message
+        spec2 = copy.deepcopy(spec)
+        edited = False
+        for i, c in enumerate(spec2["children"]):
+            if gen.PARTS[c["kind"]][2] == "free":
+                c["text"] = (c.get("text") or "") + "edited"
+                m.children[i].value = c["text"]
+                edited = True
+                break
+        for a in ("message", "label", "group"):
+            if a in spec2["attrs"]:
+                spec2["attrs"][a] = spec2["attrs"][a] + "!"
+                setattr(m, a, spec2["attrs"][a])
+                edited = True
+                break
+        if edited:
+            s_after = m.to_string()
+            got2 = gen.view(_parse(s_after, _kindsig(spec2)))
+            if got2 != gen.expected_view(spec2):
+                raise Failure("serialization-after-edit-is-stale", f"edited message {gen.expected_view(spec2)}\n serializes to {s_after!r}")
+            labels_extra.append("edited-after-first-serialization")
+    return _info(spec, (["padded"] if pads else []) + (["python-numbers"] if case.get("numeric") else []) + labels_extra)
 
 
 def check_foreign(case):
